@@ -10,3 +10,87 @@ package asn1
 //@ pure
 //@ loop 1 invariant 0 <= i && i <= len(oi) && (forall j int :: 0 <= j && j < i ==> oi[j] == other[j])
 //@ ensures [pointwise-equality] result <==> sameOID(oi, other)
+
+// ---- C10: DER leaf decoders (X.690) --------------------------------------------------------------
+
+// A DER INTEGER content: at least one octet; more than one octet only when the first nine bits are
+// not all equal (minimal). Lax mode drops exactly the minimality demand.
+//@ macro intOK(b []byte, lax bool) bool = len(b) >= 1 && (len(b) == 1 || lax || !((b[0] == 0 && b[1] & 128 == 0) || (b[0] == 255 && b[1] & 128 == 128)))
+
+//@ func parseBool
+//@ props C10
+//@ pure
+//@ ensures [only-a-single-octet-00-or-ff] err == nil <==> len(bytes) == 1 && (bytes[0] == 0 || bytes[0] == 255)
+//@ ensures [ff-is-true] err == nil ==> (ret <==> bytes[0] == 255)
+
+//@ func checkInteger
+//@ props C10
+//@ pure
+//@ ensures [accepts-exactly-well-formed-integers] result == nil <==> intOK(bytes, lax)
+//@ ensures [lax-only-adds-non-minimal-integers] intOK(bytes, false) ==> intOK(bytes, true)
+
+//@ func parseInt64
+//@ props C10
+//@ pure
+//@ site checkInteger#1 as ci
+//@ loop 1 invariant 0 <= bytesRead && bytesRead <= len(bytes) && len(bytes) <= 8 && (forall j int :: 0 <= j && j < bytesRead ==> (ret >> (8 * uint64(bytesRead - 1 - j))) & 255 == int64(bytes[j])) && (bytesRead < 8 ==> ret >= 0 && ret < int64(1) << (8 * uint64(bytesRead)))
+//@ ensures [accepts-exactly-well-formed-integers-of-at-most-eight-octets] err == nil <==> intOK(bytes, lax) && len(bytes) <= 8
+//@ ensures [value-is-the-twos-complement-big-endian-reading] err == nil ==> (forall j int :: 0 <= j && j < len(bytes) ==> (ret >> (8 * uint64(len(bytes) - 1 - j))) & 255 == int64(bytes[j]))
+//@ ensures [sign-extended-from-the-first-octet] err == nil && len(bytes) < 8 ==> (bytes[0] >= 128 ==> ret < 0 && ret >= -(int64(1) << (8 * uint64(len(bytes)) - 1))) && (bytes[0] < 128 ==> ret >= 0 && ret < int64(1) << (8 * uint64(len(bytes)) - 1))
+//@ at ci assert [checks-these-octets-in-this-mode] ci.bytes == bytes && ci.lax == lax
+
+//@ func parseInt32
+//@ props C10
+//@ pure
+//@ site parseInt64#1 as p64
+//@ ensures [accepts-exactly-integers-that-fit-32-bits] result1 == nil <==> p64.called && p64.res1 == nil && -2147483648 <= p64.res0 && p64.res0 <= 2147483647
+//@ ensures [same-value] result1 == nil ==> int64(result0) == p64.res0
+//@ at p64 assert [same-octets-and-mode] p64.bytes == bytes && p64.lax == lax
+
+//@ func parseBitString
+//@ props C10
+//@ pure
+//@ ensures [padding-count-below-eight-none-without-content-and-padding-bits-zero] err == nil <==> len(bytes) >= 1 && bytes[0] <= 7 && (len(bytes) == 1 ==> bytes[0] == 0) && bytes[len(bytes) - 1] & ((uint8(1) << bytes[0]) - 1) == 0
+//@ ensures [bit-length-and-content] err == nil ==> ret.BitLength == (len(bytes) - 1) * 8 - int(bytes[0]) && ret.Bytes == bytes[1:]
+
+//@ func (BitString).At
+//@ props C10
+//@ pure
+//@ requires b.BitLength <= 8 * len(b.Bytes)
+//@ ensures [out-of-range-bits-read-as-zero] i < 0 || i >= b.BitLength ==> result == 0
+//@ ensures [a-bit-is-zero-or-one] result == 0 || result == 1
+
+//@ func invalidLength
+//@ props C10
+//@ arith int
+//@ pure
+//@ ensures [true-exactly-when-offset-plus-length-overflows-or-leaves-the-slice] offset >= 0 && length >= 0 ==> (result <==> offset + length > 9223372036854775807 || offset + length > sliceLength)
+
+//@ func isPrintable
+//@ props C10
+//@ pure
+//@ ensures [the-printablestring-alphabet-plus-the-two-tolerated-characters] result <==> ((97 <= b && b <= 122) || (65 <= b && b <= 90) || (48 <= b && b <= 57) || (39 <= b && b <= 41) || (43 <= b && b <= 47) || b == 32 || b == 58 || b == 61 || b == 63 || (asterisk && b == 42) || (ampersand && b == 38))
+
+//@ func couldBeISO8859_1
+//@ props C10
+//@ arith int
+//@ pure
+//@ loop 1 invariant forall j int :: 0 <= j && j <= rangeindex ==> bytes[j] >= 32 && !(bytes[j] >= 127 && bytes[j] < 160)
+//@ ensures [no-control-codes] result <==> (forall j int :: 0 <= j && j < len(bytes) ==> bytes[j] >= 32 && !(bytes[j] >= 127 && bytes[j] < 160))
+
+// A base-128 integer (tag numbers, OID arcs): at most five octets, continuation bit set on all but
+// the last, value below 2^31, and (X.690 8.19.2 / 8.1.2.4.2) never starting with the octet 0x80.
+//@ func parseBase128Int
+//@ props C10
+//@ pure
+//@ requires 0 <= initOffset
+//@ loop 1 invariant initOffset <= offset && offset <= len(bytes) || offset == initOffset
+//@ loop 1 invariant shifted == offset - initOffset && 0 <= shifted && shifted <= 5 && 0 <= ret64 && ret64 >> (7 * uint64(shifted)) == 0
+//@ loop 1 invariant forall j int :: initOffset <= j && j < offset ==> bytes[j] & 128 == 128
+//@ loop 1 invariant (shifted == 1 ==> ret64 == int64(bytes[initOffset] & 127)) && (shifted == 2 ==> ret64 == int64(bytes[initOffset] & 127) * 128 + int64(bytes[initOffset + 1] & 127))
+//@ ensures [consumes-between-one-and-five-octets-inside-the-input] err == nil ==> initOffset < offset && offset <= len(bytes) && offset - initOffset <= 5
+//@ ensures [continuation-bits-delimit-the-integer] err == nil ==> bytes[offset - 1] & 128 == 0 && (forall j int :: initOffset <= j && j < offset - 1 ==> bytes[j] & 128 == 128)
+//@ ensures [value-fits-31-bits] err == nil ==> 0 <= ret && ret <= 2147483647
+//@ ensures [one-and-two-octet-values] err == nil ==> (offset == initOffset + 1 ==> ret == int(bytes[initOffset])) && (offset == initOffset + 2 ==> ret == int(bytes[initOffset] & 127) * 128 + int(bytes[initOffset + 1]))
+//@ ensures [minimal-never-a-leading-0x80] err == nil ==> bytes[initOffset] != 128
+//@ ensures [truncated-input-is-an-error] initOffset >= len(bytes) ==> err != nil
